@@ -100,16 +100,15 @@ def eval_ranges(case, ctx):
                 e = s2 <= set(range(r1[0] - d, r1[1] + d + 1))
                 if c.contains_approx(r1, r2, d) != e:
                     bad("contains_approx", c.contains_approx(r1, r2, d), e)
-                # set-theoretic: True when the ranges share >= d positions (and at least one), False when they share
-                # none or fewer than d without one containing the other; a range nested in the other with fewer than
-                # d shared positions is UNSPECIFIED (callers use it as "spans", the code answers by end order)
+                # set-theoretic: True when the ranges share >= d positions (and at least one) or one of them lies
+                # within the other (both branches of the code test containment; which of the two ranges ends first
+                # must not matter), False otherwise
                 if len(inter) >= max(d, 1):
                     e = True
                 elif not inter or not (s1 <= s2 or s2 <= s1):
                     e = False
                 else:
-                    e = None
-                    ctx.grey += 1
+                    e = True
                 if e is not None:
                     got = c.overlaps_at_least(r1, r2, d)
                     if got != e:
@@ -498,13 +497,6 @@ def _split_profiles(c, p, read, blocks, ctx):
                 else:
                     out.append(0)
             return out
-        if not match and any(0 < min(r[1], g[1]) - max(r[0], g[0]) + 1 < d and
-                             ((g[0] <= r[0] and r[1] <= g[1]) or (r[0] <= g[0] and g[1] <= r[1]))
-                             for r in read for g in blocks):
-            # a feature nested in the other and shorter than the required overlap: the predicate answers by which
-            # end the two share (same unspecified corner as overlaps_at_least, DESIGN 8.3)
-            ctx.grey += 1
-            continue
         prof = p.NonOverlappingFeaturesProfileConstructor(list(blocks), comparator=cmpf).construct_profile(list(read))
         cnt += 1
         eg, er = expected(blocks, read), expected(read, blocks)
